@@ -63,32 +63,61 @@ def rule_sticky_flag(col, facts):
         for st in b["s"]:
             if st[0] == "=" and st[1][0] == zero_arg and st[1][1] == ["*"]:
                 writes.add(i)
-    # the failed-accumulation edge: discr(and_then(checked_mul ..)) == None
-    found = False
+    def reaches_head_without_write(start, head):
+        seen = set()
+        todo = [start]
+        while todo:
+            x = todo.pop()
+            if x in seen or x in writes:
+                continue
+            seen.add(x)
+            if x == head:
+                return True
+            todo.extend(f.succ()[x])
+        return False
+    # is the accumulation bounded by the step counter (`*step == 0` sets `*overflowed`)?  Then exactly
+    # u64_step(radix) digits are accumulated, which always fit: the checked operations cannot fail and the
+    # None arm is dead (UNIT-step decides the bound itself).
+    step_arg = [l for l, nm in f.names.items() if nm == "step" and l <= f.argc]
+    bounded = False
     for i, b in enumerate(f.blocks):
         t = b["t"]
-        if t["k"] == "switch" and f.live(i):
+        if t["k"] == "switch" and f.live(i) and step_arg:
             e = strip_casts(op_expr(f, t["d"]))
-            if e[0] == "discr" and any(x[1].endswith("::checked_mul") for x in expr_calls(e)):
-                found = True
-                none_tgt = [tg for v, tg in t["v"] if v == 0] or [t["else"]]
-                # from the None edge, every path back to the loop head passes a write to *zero
+            if e[0] == "bin" and e[1] == "Eq" and strip_casts(e[3]) == ("k", 0) and "step" in show(e[2]):
+                bounded = True
+    found = skipped = False
+    for i, b in enumerate(f.blocks):
+        t = b["t"]
+        if t["k"] != "switch" or not f.live(i):
+            continue
+        e = strip_casts(op_expr(f, t["d"]))
+        # (1) the digit is skipped because the mantissa is already full: the edge of the `overflowed` test that
+        #     does not lead to the checked multiplication
+        mul_blocks = [bb for bb, c, a, d, tt in f.calls() if callee_name(c).endswith("::checked_mul")]
+        if "overflowed" in show(e) and e[0] != "discr" and mul_blocks and not any(f.dominates(m, i) for m in mul_blocks):
+            tgts = [tg for _v, tg in t["v"]] + [t["else"]]
+            acc = [tg for tg in tgts if any(f.dominates(tg, m) for m in mul_blocks)]
+            skip = [tg for tg in tgts if tg not in acc]
+            if acc and skip:
+                skipped = True
                 head = loop_head(f, i)
-                ok = True
-                seen = set()
-                todo = [none_tgt[0]]
-                while todo:
-                    x = todo.pop()
-                    if x in seen or x in writes:
-                        continue
-                    seen.add(x)
-                    if x == head:
-                        ok = False
-                        break
-                    todo.extend(f.succ()[x])
-                col.check(R, "binary::parse_u64_digits:overflow-digit", ok,
-                          "the digit that no longer fits the u64 is dropped without updating the sticky `zero` flag: a non-zero digit exactly at the first overflowing position is lost (ties round to even instead of up)", f.loc(b["ts"]))
-    col.check(R, "binary::parse_u64_digits:shape", found, "no checked accumulation found", f.loc())
+                ok = not any(reaches_head_without_write(tg, head) for tg in skip)
+                col.check(R, "binary::parse_u64_digits:skipped-digit", ok,
+                          "a digit that is not accumulated because the mantissa is full is dropped without updating the sticky `zero` flag: non-zero digits beyond the u64 are lost (ties round to even instead of up)", f.loc(b["ts"]))
+        # (2) the failed-accumulation edge: discr(and_then(checked_mul ..)) == None - only live if the
+        #     accumulation is not bounded by the step counter
+        if e[0] == "discr" and any(x[1].endswith("::checked_mul") for x in expr_calls(e)):
+            found = True
+            if bounded:
+                col.ok(R, "binary::parse_u64_digits:overflow-digit", "accumulation bounded by the step counter: the None arm is dead", f.loc(b["ts"]))
+                continue
+            none_tgt = [tg for v, tg in t["v"] if v == 0] or [t["else"]]
+            head = loop_head(f, i)
+            ok = not reaches_head_without_write(none_tgt[0], head)
+            col.check(R, "binary::parse_u64_digits:overflow-digit", ok,
+                      "the digit that no longer fits the u64 is dropped without updating the sticky `zero` flag: a non-zero digit exactly at the first overflowing position is lost (ties round to even instead of up)", f.loc(b["ts"]))
+    col.check(R, "binary::parse_u64_digits:shape", found and skipped, "no checked accumulation / no full-mantissa branch found", f.loc())
 
 
 def loop_head(f, inside):
@@ -148,9 +177,10 @@ def rule_buffer_allowance(col, facts):
                             dec = v
                         else:
                             other = v
-    need = facts.const_value("<u64 as lexical_util::constants::FormattedSize>::FORMATTED_SIZE_DECIMAL")
-    col.check(R, "buffer_size_const:decimal-digits", dec is not None and dec >= need,
-              "the decimal significant-digit allowance is %s but the digits are written by the u64 writer, which needs a %d-byte window: a buffer of exactly the documented size panics" % (dec, need), f.loc())
+    # NOTE: the decimal allowance itself is no longer an obligation: since the F22 repair the term is
+    # `max(digits, u64::FORMATTED_SIZE_DECIMAL)`, and what must hold - the final term is >= the writer's window
+    # on every path - is decided by rule_digit_window_allowance (a smaller literal here is harmless).
+    col.check(R, "buffer_size_const:decimal-allowance:present", dec is not None, "the decimal significant-digit allowance was not found", f.loc())
     if "power-of-two" in facts.config or "radix" in facts.config:
         col.check(R, "buffer_size_const:radix-digits", other is not None and other >= 64,
                   "the non-decimal significant-digit allowance is %s; a radix-2 mantissa alone has 53 digits and the u64 writer window is 64" % other, f.loc())
@@ -1053,6 +1083,26 @@ def _lower_bound(e, atoms, depth=0):
     return lb
 
 
+def _const_atom_contradicts(a, p):
+    """An atom comparing two literal constants whose recorded polarity is not what the comparison gives."""
+    a = strip_casts(simplify_proj(a))
+    if a[0] != "bin" or a[1] not in ("Lt", "Le", "Gt", "Ge", "Eq", "Ne") or not isinstance(p, bool):
+        return False
+    x, y = strip_casts(a[2]), strip_casts(a[3])
+
+    def k(z):
+        if z[0] == "k" and isinstance(z[1], int) and not isinstance(z[1], bool):
+            return z[1]
+        if z[0] == "kc" and isinstance(z[2], int):
+            return z[2]
+        return None
+    kx, ky = k(x), k(y)
+    if kx is None or ky is None:
+        return False
+    v = {"Lt": kx < ky, "Le": kx <= ky, "Gt": kx > ky, "Ge": kx >= ky, "Eq": kx == ky, "Ne": kx != ky}[a[1]]
+    return v != p
+
+
 def rule_digit_window_allowance(col, facts):
     """TBL-size (digit window): the decimal writers emit *all* shortest digits with the u64 integer writer -
     which re-slices a 20-byte window - at the position where they start, and only then truncate them to
@@ -1096,6 +1146,8 @@ def rule_digit_window_allowance(col, facts):
         dec = [p for e, p in atoms if strip_casts(e)[0] == "bin" and strip_casts(e)[1] == "Eq" and strip_casts(strip_casts(e)[3]) == ("k", 10) and any(last_seg(c[1]) == "radix" for c in expr_calls(e))]
         if dec and dec[-1] is False:
             continue                        # non-decimal: the generic integer writer needs no fixed window
+        if any(_const_atom_contradicts(a, p) for a, p in atoms):
+            continue                        # e.g. `18 > 20` taken as true: not a path
         n += 1
         val = env.get(addend[1])
         e = resolve_env(val[1], env) if val and val[0] == "expr" else addend
